@@ -105,6 +105,15 @@ Conv(td, v) ==
                           vs |-> [j \in 1..Len(td.ns) |-> Conv(td.ts[j], v.vs[FieldPos(v, td.ns[j])])]]
       [] td.k = "arr" -> [t |-> "arr", es |-> [j \in 1..Len(v.es) |-> Conv(td.t, v.es[j])]]
 
+(* the value of `x : T;` - td as for Conv, plus [k |-> "opt"] (nil) *)
+RECURSIVE DefaultOf(_)
+DefaultOf(td) ==
+    CASE td.k = "int" -> IntV(td.w, td.s, [j \in 1..td.w |-> 0])
+      [] td.k = "bool" -> BoolV(FALSE)
+      [] td.k = "opt" -> [t |-> "sum", k |-> 2, p |-> Void]
+      [] td.k = "rec" -> [t |-> "rec", ns |-> td.ns, vs |-> [j \in 1..Len(td.ns) |-> DefaultOf(td.ts[j])]]
+      [] td.k = "arr" -> [t |-> "arr", es |-> [j \in 1..td.n |-> DefaultOf(td.t)]]
+
 (* -------------------------------------------------------------- interpreter *)
 RECURSIVE Eval(_, _, _), EvalList(_, _, _, _, _), Exec(_, _, _), ExecSeq(_, _, _, _, _),
           Block(_, _, _), Loop(_, _, _), RunDefers(_, _, _), Call(_, _, _, _), LRead(_, _), LWrite(_, _, _, _),
@@ -148,6 +157,8 @@ Eval(P, e, st) ==
                              ELSE Lookup(st.env, e.n), st)
       [] e.e = "un" -> LET r == Eval(P, e.x, st) IN IF r.sig # "norm" THEN r ELSE Norm(Un(e.op, r.v), r.st)
       [] e.e = "cast" -> LET r == Eval(P, e.x, st) IN IF r.sig # "norm" THEN r ELSE Norm(Cast(TyOf(e, r.st), r.v), r.st)
+      \* the value a declaration without initialiser gives: zero / false / nil, member by member
+      [] e.e = "default" -> Norm(DefaultOf(e.td), st)
       [] e.e = "scast" -> LET r == Eval(P, e.x, st) IN IF r.sig # "norm" THEN r ELSE Norm(Conv(e.to, r.v), r.st)
       [] e.e = "bin" ->
             LET a == Eval(P, e.l, st) IN
